@@ -249,7 +249,7 @@ func isSavepoint(text string) bool {
 func checkExec(rt *rapid.T, c *chains.Chain) {
 	// configuration of the handle: dialect with/without RETURNING, QueryFields, nested transactions
 	// off, and whether the chain runs inside an explicit transaction block
-	noReturning := c.CreatesFromMap() || rapid.IntRange(0, 3).Draw(rt, "noreturning") == 0
+	noReturning := rapid.IntRange(0, 3).Draw(rt, "noreturning") == 0
 	if c.Returning {
 		noReturning = false
 	}
@@ -266,9 +266,6 @@ func checkExec(rt *rapid.T, c *chains.Chain) {
 		desc = "in Transaction: " + desc
 	}
 	evid.Journal(desc)
-	// Create from maps is run on the dialect configuration without RETURNING: with it gorm
-	// fails (or panics) while scanning the returned keys back into []map values after the
-	// statement was sent, which is not this property's subject (see the report).
 	d := testdb.Open(testdb.Options{Config: gorm.Config{NowFunc: fixedNow, Logger: lg, CreateBatchSize: c.ConfigBatchSize(), QueryFields: queryFields,
 		DisableNestedTransaction: noNested}, NoReturning: noReturning})
 	defer d.Close()
@@ -428,7 +425,7 @@ func TestC01RoundTrip(t *testing.T) {
 		desc := fmt.Sprintf("roundtrip create=%s names=%q probe=%q form=%s repr=%s", create, names, probe, form, kind)
 		evid.Journal(desc)
 
-		d := testdb.Open(testdb.Options{Config: gorm.Config{NowFunc: fixedNow}, NoReturning: create == "maps"})
+		d := testdb.Open(testdb.Options{Config: gorm.Config{NowFunc: fixedNow}, NoReturning: false})
 		defer d.Close()
 		for _, s := range chains.DDL {
 			if _, err := d.SQL.Exec(s); err != nil {
